@@ -19,6 +19,9 @@ OPT_NOTE = ("optimiser model (coq/model/Optimiser.v) replayed bit-for-bit agains
             "MCOptimiser::optimise_state on scripted and real states")
 
 PROPS = {
+    "C17": dict(props_file="props/C17.v", engines=[("parse", dict(grammar_quick=1500, grammar_thorough=20000,
+                                                                   arbitrary_quick=3000, arbitrary_thorough=200000))],
+                design="DESIGN.md section 4 C17"),
     "C16": dict(props_file="props/C16.v", needs_gen=True, engines=[("tables", dict(groups=True))],
                 design="DESIGN.md section 4 C16",
                 trusted=["bin/gen.py + `vharness dump`: regeneration of coq/gen/GenTables.v from the running code",
@@ -310,6 +313,9 @@ def tables_engine(prop, conf, params, tier, seed, broken_gate):
 
 ENGINES["tables"] = tables_engine
 
+import eng_parse
+ENGINES["parse"] = eng_parse.run
+
 
 def run_engines(prop, conf, tier, seed, broken_gate=False):
     total = dict(evaluations=0, distinct_nontrivial=0, rule="", samples=[], findings=[], mismatches=[],
@@ -356,4 +362,4 @@ def run_replay(prop, conf, path):
     return total
 
 
-REPLAYERS = {}
+REPLAYERS = {"parse": eng_parse.replay}
